@@ -534,6 +534,17 @@ theorem C27_full_row_exact (h : Hier) (hw : h.wf) (hd : h.distinct) (e r : Nat) 
     simp only [Bool.false_eq_true, if_false]
     rw [C27_no_subclasses_exact h hw e r hr hs (hnd rfl)]
 
+/-- **`select_random` takes its unfiltered fast path only where no filter is needed.**  With the guard read from the current source: whenever
+    `Entity.select_random(n)` does NOT go through the ordinary discriminator-filtered `select().random(n)` — i.e. it batch-loads random
+    primary keys of the whole table — the entity either has no discriminator (its table holds only its own objects) or is the ROOT of its
+    hierarchy (every row of the table is an instance of it); a middle or leaf class of a single-table hierarchy always takes the filtered path -/
+theorem C27_select_random_fast_only_root (c : RandomCtx) (h : selectRandomFilteredGuard c = false) :
+    c.pkInt = true ∧ (c.hasDiscr = false ∨ c.isRoot = true) := by
+  rcases c with ⟨pkInt, pkComposite, hasDiscr, isRoot, hasSub⟩
+  cases pkInt <;> cases hasDiscr <;> cases isRoot <;> simp [selectRandomFilteredGuard] at h ⊢
+
+example : selectRandomFilteredGuard ⟨true, false, true, false, false⟩ = true := by decide   -- a leaf class: filtered
+
 end SeedLoad
 
 end PonyVerif.Props.C27
